@@ -11,6 +11,9 @@ Stand-alone thymus:  `tcfg min tol varThr`, `sample <fp>`, `ttrain sdLen sdTime 
 Pipeline:            `sys minTrain tol varThr stability cap (sev:cond)*`, `reg a`, `show a <fp>|none`, `train a`,
   `pinspect a`, `pflag a b`, `preset a`, `presetfa a`, `unrec a`, `updated a`, `expire` (two hours pass),
   `pruneold hours`, `pset a rep|anergy k`, `pset a profile <profile>`, `gset stability (sev:cond)*`, `mset capacity`, `import (agent:vocab:struct:level:action:ageHours)*`, `reimport` (export, then import), `roundtrip` (export, `prune_old(0)`, import).
+Read-only accessors (pure reads; the line shows what was read and a digest of the whole state afterwards):
+  `peek health|cell|stats|export|repr|agents`, `tpeek` (stand-alone T cell).  Direct assignment to the public list
+  `memory.signatures`: `mforget clear|assign|pop0|dellast|slice`, `mforget agent a`.
 Pipeline with the real display: `dreg a windowSize minObs`, `obs a text|brk|none|empty struct words len time conf err
   sdLen sdTime sdConf` (the three stdevs of the window after this observation), `canary a b`.
 -/
@@ -24,6 +27,8 @@ structure DSt where
   sys : Sys := Sys.init 10 2 (1 / 2) ⟨[], 100⟩ 1000
   /-- agents whose display is a real window (`dreg`), with the standard deviations of the current window -/
   displays : List (Nat × Display × Sds) := []
+  /-- keys of `ImmuneSystem.displays` in insertion order -/
+  regs : List Nat := []
 
 def natList (s : String) : List Nat :=
   if s = "-" then [] else (s.splitOn ",").map (natD ·)
@@ -96,6 +101,38 @@ def showTc : Option TCell → String
   | none => "tc=none"
   | some t => s!"tc={t.anomaly}/{t.anergy}/{showBool t.flag}"
 
+/-- the order in which `_prune_least_accessed` would remove the signatures: positions sorted by `last_accessed`
+    (stable: equal stamps keep list order) -/
+def pruneOrder (l : List Sig) : List Nat :=
+  (l.zipIdx.mergeSort (fun x y => decide (x.1.accessed ≤ y.1.accessed))).map (·.2)
+
+/-- everything the histories can observe later, read off the state: memory content and pruning order, and for every
+    registered agent the T cell (counters, flag, last signals, thresholds) and the tolerance record -/
+def digest (st : DSt) : String :=
+  let s := st.sys
+  let mem := if s.mem.sigs.isEmpty then "-" else
+    ";".intercalate (s.mem.sigs.map fun x => s!"{x.agent}:{showLevel x.level}:{showAction x.action}")
+  let ord := if s.mem.sigs.isEmpty then "-" else ",".intercalate ((pruneOrder s.mem.sigs).map toString)
+  let ags := st.regs.map fun a =>
+    let ag := s.agents a
+    s!"a{a}:" ++ (match ag.tcell with
+      | none => "tc=none"
+      | some t => s!"tc={t.anomaly}/{t.anergy}/{showBool t.flag}/{showS1 t.lastS1}/{showS2 t.lastS2}/{t.repThr}/{t.anergyThr}/{showBool t.isAnergic}")
+      ++ ":" ++ (match ag.record with
+      | none => "rec=none"
+      | some r => s!"rec={r.clean}/{r.total}/{showBool r.recent}")
+  joinSp ([s!"mem={mem}", s!"ord={ord}", s!"cap={s.mem.cap}"] ++ ags)
+
+def nobsOf (st : DSt) (a : Nat) : Nat :=
+  match st.displays.find? (·.1 == a) with
+  | some (_, d, _) => d.obs.length
+  | none => 0
+
+def showHealth : Option HealthReport → String
+  | none => "raise:ZeroDivisionError"
+  | some h => s!"ok h={h.registered}/{h.trained}/{h.stored}/{h.cap} " ++
+      (if h.agents.isEmpty then "-" else ",".intercalate (h.agents.map fun x => s!"{x.1}:{showBool x.2.1}:{x.2.2}"))
+
 def step (st : DSt) (toks : List String) : DSt × String :=
   match toks with
   | ["tcell", rep, an, a, b, c, d, e, f, em, vs, ss, cm] =>
@@ -145,11 +182,13 @@ def step (st : DSt) (toks : List String) : DSt × String :=
     | .positive pr => ({ st with tcell := some (TCell.fresh pr 3 5) }, "positive ## tr:positive")
   | "sys" :: mn :: tol :: vt :: stab :: cap :: rules =>
     ({ st with sys := Sys.init (intD mn) (ratOf tol) (ratOf vt) ⟨rules.map ruleOf, intD stab⟩ (intD cap),
-               displays := [] }, "ok")
+               displays := [], regs := [] }, "ok")
   | ["reg", a] =>
-    ({ st with sys := st.sys.register (natD a), displays := st.displays.filter (·.1 != natD a) }, "ok")
+    ({ st with sys := st.sys.register (natD a), displays := st.displays.filter (·.1 != natD a),
+               regs := if st.regs.contains (natD a) then st.regs else st.regs ++ [natD a] }, "ok")
   | ["dreg", a, ws, mo] =>
     ({ st with sys := st.sys.register (natD a),
+               regs := if st.regs.contains (natD a) then st.regs else st.regs ++ [natD a],
                displays := (natD a, ⟨intD ws, intD mo, [], []⟩, ⟨0, 0, 0⟩) :: st.displays.filter (·.1 != natD a) }, "ok")
   | ["obs", a, out, sk, ws, ln, tm, cf, er, sl, stt, sc] =>
     match st.displays.find? (·.1 == natD a) with
@@ -247,6 +286,43 @@ def step (st : DSt) (toks : List String) : DSt × String :=
   | ["reimport"] =>
     let s' := st.sys.importSigs st.sys.mem.sigs
     ({ st with sys := s' }, s!"ok mem={s'.mem.sigs.length} ## m:reimport")
+  | ["peek", kind] =>
+    -- a pure read: the state stays as it is (`Op.peek`)
+    let s' := (st.sys.step .peek).1
+    let st' := { st with sys := s' }
+    let h := st.sys.health st.regs (nobsOf st)
+    if kind == "health" then (st', showHealth h ++ " " ++ digest st' ++ " ## k:health")
+    else if kind == "cell" then
+      (st', (if h.isSome then "ok" else "raise:ZeroDivisionError") ++ " " ++ digest st' ++ " ## k:cell")
+    else if kind == "stats" then
+      (st', (match h with
+        | some r => s!"ok st={r.stored}/{r.cap}"
+        | none => "raise:ZeroDivisionError") ++ " " ++ digest st' ++ " ## k:stats")
+    else if kind == "export" then (st', s!"ok ex={st.sys.mem.sigs.length} " ++ digest st' ++ " ## k:export")
+    else if kind == "repr" || kind == "agents" then (st', "ok " ++ digest st' ++ " ## k:" ++ kind)
+    else (st, "bad-op")
+  | ["tpeek"] =>
+    match st.tcell with
+    | none => (st, "no-tcell")
+    | some t => (st, "ok " ++ showT t ++ s!" s={showS1 t.lastS1}/{showS2 t.lastS2} anergic={showBool t.isAnergic} ## k:tpeek")
+  | ["mforget", how] =>
+    let n := st.sys.mem.sigs.length
+    let mask : Option (List Bool) :=
+      if how == "clear" || how == "assign" then some []
+      else if how == "pop0" || how == "slice" then some (false :: List.replicate (n - 1) true)
+      else if how == "dellast" then some (List.replicate (n - 1) true)
+      else none
+    match mask with
+    | none => (st, "bad-op")
+    | some m =>
+      let s' := (st.sys.step (.forget m)).1
+      ({ st with sys := s' }, s!"ok mem={s'.mem.sigs.length}" ++
+        (if s'.mem.sigs.length < n then " ## m:forgot" else " ## m:forgot-nothing"))
+  | ["mforget", "agent", a] =>
+    let n := st.sys.mem.sigs.length
+    let s' := (st.sys.step (.forget (st.sys.mem.sigs.map fun x => x.agent != natD a))).1
+    ({ st with sys := s' }, s!"ok mem={s'.mem.sigs.length}" ++
+      (if s'.mem.sigs.length < n then " ## m:forgot" else " ## m:forgot-nothing"))
   | _ => (st, "bad-op")
 
 def main : IO Unit := runDriver ({} : DSt) step
